@@ -267,6 +267,7 @@ def _report(mod, prop, tier, seed, cases, results, capped, wall) -> int:
                 "sample": r.get("sample"),
             }
         )
+    static_caps = list(mod.CAPS(tier)) if hasattr(mod, "CAPS") else []
     vacuous = len(results) >= 4 and len(outcomes) <= 1 and not getattr(mod, "SINGLE_OUTCOME_OK", False)
     ev = {
         "property_id": prop,
@@ -281,11 +282,11 @@ def _report(mod, prop, tier, seed, cases, results, capped, wall) -> int:
             "evaluations": len(results),
             "distinct_nontrivial": len(nontriv),
             "rule": mod.RULE,
-            "exhaustive": (not capped) and len(results) == len(cases),
+            "exhaustive": (not capped) and len(results) == len(cases) and not static_caps,
             "bound": jsonable(mod.BOUND(tier)) if hasattr(mod, "BOUND") else {},
             "cases_enumerated": len(cases),
             "cases_executed": len(results),
-            "caps_hit": (["wall-time budget reached: %d of %d cases executed" % (len(results), len(cases))] if capped else []),
+            "caps_hit": (["wall-time budget reached: %d of %d cases executed" % (len(results), len(cases))] if capped else []) + static_caps,
             "skipped": skip_reasons,
             "distinct_outcomes": len(outcomes),
             "known_findings_hit": sorted(seen_k),
